@@ -25,13 +25,15 @@ from vp import cfgx, mk
 
 ID = "C18"
 LEVEL = "exploration"
-ENGINE = "cfgx"
+ENGINE = "cfgx+schedx"
 TIMEOUT = 900
 ENV = {"NUMBA_DISABLE_JIT": "1"}        # Charge.array with clusters recompiles a numba kernel per call otherwise
 TECHNIQUE = ("bounded exhaustive enumeration of (detector type, property palette, subset of initialised containers, "
              "file format) executed on the real save/load entry points, field-by-field structural comparison of the "
              "original and the reloaded detector; the load_detector model executed at every position of a real "
-             "pipeline and observed by a probe model and in the result of run_mode")
+             "pipeline and observed by a probe model and in the result of run_mode; stateless exploration (preemption-bounded, "
+             "controlled scheduler with scheduling points at the file-system calls) of 2-3 threads saving their detectors "
+             "into one folder")
 LEVEL_TEXT = ("Every combination of the container states photon {none, 2-D, 3-D} x pixel x signal x image {none, uint8, "
               "uint16, uint32, uint64} x charge {zero, array, clusters} x scene {none, one source} x data {empty, one "
               "node, nested} (x phase for MKID) is built on real CCD / CMOS / MKID / APD detectors (thorough: the full "
@@ -43,7 +45,8 @@ LEVEL_NOTE = ("Bounded: detector 2x3, palettes of 4 (APD: 9) property sets, one 
               "VERIF_SEED). HDF5 is exercised only when h5py imports (recorded in the evidence as formats / "
               "h5py_available). Trusted: numpy / xarray / pandas equality of plain values, the asdf library. Derived "
               "APD quantities (bias, node capacitance, charge_to_volt_conversion) are functions of the compared settings "
-              "and are not compared separately.")
+              "and are not compared separately. Concurrent saves: 2 threads <= 2 (thorough 3) preemptions, 3 threads <= 1 (2); "
+              "scheduling points = rename / replace / remove / unlink / open-for-writing inside the folder.")
 DESIGN_REF = "DESIGN.md section 4, C18"
 ASSUMPTIONS = [
     "payload values per container state are fixed per seed; float values are exactly representable",
@@ -62,7 +65,7 @@ NSHARDS = 48
 ROWS, COLS = 2, 3
 
 AXES = {
-    "photon": ["none", "2d", "3d"],
+    "photon": ["none", "2d", "3d", "3dx"],       # 3dx: the cube carries non-dimension coordinates (scalar + per wavelength)
     "pixel": ["none", "set"],
     "signal": ["none", "set"],
     "image": ["none", "u8", "u16", "u32", "u64"],
@@ -176,10 +179,12 @@ def fill_containers(det, combo, salt=0.0):
     ph = combo.get("photon", "none")
     if ph == "2d":
         det.photon.array = v * 1.5
-    elif ph == "3d":
+    elif ph in ("3d", "3dx"):
         cube = np.stack([v * 1.5, v * 1.5 + 100.0, v * 1.5 + 200.0])
-        det.photon.array_3d = xr.DataArray(cube, dims=["wavelength", "y", "x"],
-                                           coords={"wavelength": [500.0, 600.0, 700.0]})
+        coords = {"wavelength": [500.0, 600.0, 700.0]}
+        if ph == "3dx":
+            coords.update(band=("wavelength", ["g", "r", "i"]), exposure_id=7 + _seed() % 5)
+        det.photon.array_3d = xr.DataArray(cube, dims=["wavelength", "y", "x"], coords=coords)
     if combo.get("pixel", "none") == "set":
         det.pixel.array = v * 2.0 + 0.25
     if combo.get("signal", "none") == "set":
@@ -495,6 +500,11 @@ def enumerate_cases(tier, seed):
                 for steps in (1, 2):
                     cases.append({"part": "model", "det": kind, "file": fname, "pos": pos, "steps": steps,
                                   "ext": ".asdf"})
+    # concurrent saves (controlled scheduler, scheduling points at the file-system calls)
+    thorough = tier == "thorough"
+    for kind in (mk.DET_TYPES if thorough else ("ccd", "mkid")):
+        cases.append({"part": "race", "det": kind, "threads": 2, "bound": 3 if thorough else 2})
+    cases.append({"part": "race", "det": "ccd", "threads": 3, "bound": 2 if thorough else 1})
     return cases
 
 
@@ -508,7 +518,7 @@ def expected_size(tier, seed):
         else:
             m = n_combos_near(kind, k)
         n += m * len(formats())
-    return n + len(mk.DET_TYPES) * len(MODEL_FILES) * len(POSITIONS) * 2
+    return n + len(mk.DET_TYPES) * len(MODEL_FILES) * len(POSITIONS) * 2 + (len(mk.DET_TYPES) if tier == "thorough" else 2) + 1
 
 
 # ------------------------------------------------------------------ part roundtrip
@@ -715,9 +725,116 @@ def run_model(case):
             "outcome": {"violations": len(viol)}}
 
 
+# ------------------------------------------------------------------ part race (schedx): concurrent saves into one folder
+
+def _race_once(kind, nthreads, choices, expect):
+    import builtins
+
+    from vp import schedx
+
+    tmp = tempfile.mkdtemp(prefix="vp_c18r_")
+    sched = schedx.Sched(choices, expect)
+    combos = [MODEL_FILES["F2d"], MODEL_FILES["F3d"], MODEL_FILES["Fgrp"]]
+    dets, paths = [], []
+    for i in range(nthreads):
+        d = build_detector(kind, "all")
+        fill_containers(d, {a: v for a, v in combos[i % 3].items() if a in axes_for(kind)}, salt=10.0 * i)
+        dets.append(d)
+        paths.append(os.path.join(tmp, f"detector_{i}.asdf"))
+    orig = {"open": builtins.open, "replace": os.replace, "rename": os.rename, "remove": os.remove, "unlink": os.unlink}
+    # asdf writes through a temporary file and `atomic_rename` (= os.rename bound at import time): import it before the
+    # seams are installed and put the seam on its own name, so that every execution sees the same scheduling points
+    import asdf._extern.atomicfile as _af
+
+    orig["af_rename"] = _af.atomic_rename
+
+    def inside(p):
+        try:
+            return os.fspath(p).startswith(tmp)
+        except TypeError:
+            return False
+
+    def w_open(file, mode="r", *a, **k):
+        if inside(file) and isinstance(mode, str) and any(c in mode for c in "wax+"):
+            sched.point("fs.open-w")
+        return orig["open"](file, mode, *a, **k)
+
+    def wrap(name):
+        def f(*a, **k):
+            if a and inside(a[0]):
+                sched.point("fs." + name)
+            return orig[name](*a, **k)
+        return f
+
+    builtins.open = w_open
+    os.replace, os.rename, os.remove, os.unlink = wrap("replace"), wrap("rename"), wrap("remove"), wrap("unlink")
+    _af.atomic_rename = wrap("af_rename")
+    try:
+        for i in range(nthreads):
+            sched.spawn(lambda i=i: dets[i].save(paths[i]), None, name=f"save{i}")
+        sched.run_all()
+    finally:
+        builtins.open = orig["open"]
+        os.replace, os.rename, os.remove, os.unlink = orig["replace"], orig["rename"], orig["remove"], orig["unlink"]
+        _af.atomic_rename = orig["af_rename"]
+    out = {}
+    try:
+        for tid, rec in sched.threads.items():
+            if "exc" in rec:
+                out[tid] = {"error": f"{type(rec['exc']).__name__}: {str(rec['exc'])[:160]}"}
+                continue
+            try:
+                back = type(dets[tid]).load(paths[tid])
+                diffs = diff(snap_detector(dets[tid]), snap_detector(back))
+                out[tid] = {"diffs": len(diffs), "first": None if not diffs else f"{diffs[0][0]}: saved {_short(diffs[0][1], 60)} != "
+                                                                                  f"loaded {_short(diffs[0][2], 60)}"}
+            except Exception as e:  # noqa: BLE001
+                out[tid] = {"error": f"loading {os.path.basename(paths[tid])} raised {type(e).__name__}: {str(e)[:160]}"}
+        leftovers = sorted(f for f in os.listdir(tmp) if not f.startswith("detector_"))
+        if leftovers:
+            out["leftovers"] = leftovers
+    finally:
+        shutil.rmtree(tmp, ignore_errors=True)
+    return out, sched.log
+
+
+def run_race(case):
+    """every interleaving (preemption-bounded) of n threads that each save their own detector into their own file of one
+    folder: every file must load back as the detector that was saved into it"""
+    from vp import schedx
+
+    kind, n, bound = case["det"], case["threads"], case["bound"]
+    viol, outcomes = {}, set()
+    stats = {"executions": 0, "points": 0}
+
+    def on_exec(ch, out, log):
+        stats["executions"] += 1
+        stats["points"] = max(stats["points"], len(log))
+        outcomes.add(json.dumps(out, sort_keys=True, default=str))
+        for tid, v in out.items():
+            if tid == "leftovers":
+                continue
+            code = "save-raised" if "error" in v and "loading" not in v["error"] else (
+                "unreadable" if "error" in v else ("wrong-content" if v["diffs"] else None))
+            if code:
+                key = {"part": "race", "code": code, "threads": n}
+                viol.setdefault(json.dumps(key, sort_keys=True),
+                                (key, f"[{kind}, {n} concurrent saves into one folder] schedule {ch}: file of thread {tid}: "
+                                      f"{v.get('error') or v.get('first')}"))
+
+    schedx.explore(lambda ch, ex: _race_once(kind, n, ch, ex), bound, prefix=(), on_exec=on_exec)
+    if stats["points"] < 2:
+        raise RuntimeError(f"vacuous race harness: only {stats['points']} scheduling point(s) per execution")
+    return {"viol": list(viol.values()), "sig": cfgx.sig(["race", kind, n, bound, sorted(outcomes)]), "nontrivial": True,
+            "n": stats["executions"], "counts": {"schedules": stats["executions"]},
+            "outcome": {"schedules": stats["executions"], "max_points": stats["points"], "distinct_outcomes": len(outcomes)}}
+
+
 def run_case(case):
     if case["part"] == "roundtrip":
         return run_roundtrip(case)
+    if case["part"] == "race":
+        return run_race(case)
     return run_model(case)
 
 
